@@ -3,7 +3,14 @@ use crate::helpers::{IntAlignment, Qcow2IoBuf};
 use crate::meta::{L2Entry, L2Table, Mapping, MappingSource, SplitGuestOffset};
 use crate::zero_buf;
 use async_recursion::async_recursion;
+use crate::cache::AsyncLruCacheEntry;
 use futures_locks::RwLockReadGuard as LockReadGuard;
+
+/// The read lock of an l2 slice together with its cache entry: the entry
+/// has to stay referenced as long as the lock is held, otherwise the cache
+/// takes the slice for idle, drops it, and the next lookup loads a second
+/// copy with a lock of its own.
+type L2SliceReadHold = (LockReadGuard<L2Table>, AsyncLruCacheEntry<L2TableHandle>);
 use miniz_oxide::inflate::core::{decompress as inflate, DecompressorOxide};
 use miniz_oxide::inflate::TINFLStatus;
 
@@ -33,7 +40,7 @@ impl<T: Qcow2IoOps> Qcow2Dev<T> {
     async fn get_l2_entry_locked(
         &self,
         virtual_offset: u64,
-    ) -> Qcow2Result<(L2Entry, Option<LockReadGuard<L2Table>>)> {
+    ) -> Qcow2Result<(L2Entry, Option<L2SliceReadHold>)> {
         let info = &self.info;
         let split = SplitGuestOffset(virtual_offset);
         let key = split.l2_slice_key(info);
@@ -41,7 +48,7 @@ impl<T: Qcow2IoOps> Qcow2Dev<T> {
         // fast path
         if let Some(res) = self.l2cache.get(key) {
             let l2_slice = res.value().read().await;
-            Ok((l2_slice.get_entry(info, &split), Some(l2_slice)))
+            Ok((l2_slice.get_entry(info, &split), Some((l2_slice, res))))
         } else {
             let l1_entry = self.get_l1_entry(&split).await?;
 
@@ -50,7 +57,7 @@ impl<T: Qcow2IoOps> Qcow2Dev<T> {
             } else {
                 let entry = self.get_l2_slice_slow(&l1_entry, &split).await?;
                 let l2_slice = entry.value().read().await;
-                Ok((l2_slice.get_entry(info, &split), Some(l2_slice)))
+                Ok((l2_slice.get_entry(info, &split), Some((l2_slice, entry))))
             }
         }
     }
@@ -62,7 +69,7 @@ impl<T: Qcow2IoOps> Qcow2Dev<T> {
         &self,
         off: u64,
         len: usize,
-    ) -> Qcow2Result<(Vec<L2Entry>, Vec<LockReadGuard<L2Table>>)> {
+    ) -> Qcow2Result<(Vec<L2Entry>, Vec<L2SliceReadHold>)> {
         let info = &self.info;
         let mut guards = Vec::new();
         let start = info.cluster_round_down(off);
@@ -75,8 +82,8 @@ impl<T: Qcow2IoOps> Qcow2Dev<T> {
             let key = split.l2_slice_key(info);
 
             // fast path
-            let l2_slice = match self.l2cache.get(key) {
-                Some(res) => res.value().read().await,
+            let (l2_slice, l2_handle) = match self.l2cache.get(key) {
+                Some(res) => (res.value().read().await, res),
                 None => {
                     let l1_entry = self.get_l1_entry(&split).await?;
 
@@ -86,7 +93,7 @@ impl<T: Qcow2IoOps> Qcow2Dev<T> {
                         continue;
                     } else {
                         let entry = self.get_l2_slice_slow(&l1_entry, &split).await?;
-                        entry.value().read().await
+                        (entry.value().read().await, entry)
                     }
                 }
             };
@@ -104,7 +111,7 @@ impl<T: Qcow2IoOps> Qcow2Dev<T> {
                 entries.push(l2_slice.get_entry(info, &s));
             }
             voff = this_end;
-            guards.push(l2_slice);
+            guards.push((l2_slice, l2_handle));
         }
 
         Ok((entries, guards))
